@@ -215,6 +215,13 @@ def _provide_evaluatable_data() -> EvaluatableData:
     return EvaluatableData(body=_env(), edifact_format=FMT, edifact_format_version=FMTV)
 
 
+def is_sync_key(kind, key):
+    """which evaluate_<key> methods of the harness / user-style evaluators are plain functions (the others are coroutine
+    functions): a fixed arithmetic rule that MIXES both kinds among the first keys of every pool, in both written orders"""
+    k = int(key)
+    return (k % 7 in (1, 2, 4)) if kind == "rc" else (k % 3 == 0)
+
+
 _configured = False
 
 
